@@ -22,7 +22,7 @@ try:
                 print('%s: %s' % (p, l[:400]))
 finally:
     sh('git -C /repo checkout -- .')
-    sh('git -C /repo clean -fdq src')
+    sh('git -C /repo clean -fdq src tests benches examples')
 for p in props:
     sh('./check %s' % p, VERIF)
 print('checks alarmed: %d' % n)
